@@ -46,9 +46,6 @@ impl Term {
     pub fn quoted(s: Term, p: Term, o: Term) -> Term {
         Term::Quoted(Box::new((s, p, o)))
     }
-    pub fn is_literal(&self) -> bool {
-        matches!(self, Term::Lit { .. })
-    }
     pub fn has_quoted(&self) -> bool {
         matches!(self, Term::Quoted(_))
     }
@@ -74,8 +71,6 @@ pub enum Format {
     RdfXml,
 }
 
-pub const FORMATS: [Format; 5] = [Format::NTriples, Format::NQuads, Format::Turtle, Format::N3, Format::RdfXml];
-
 impl Format {
     pub fn name(&self) -> &'static str {
         match self {
@@ -85,9 +80,6 @@ impl Format {
             Format::N3 => "n3",
             Format::RdfXml => "rdfxml",
         }
-    }
-    pub fn parse(s: &str) -> Option<Format> {
-        FORMATS.iter().copied().find(|f| f.name() == s)
     }
 }
 
